@@ -183,6 +183,18 @@ func tail(s string, n int) string {
 	return s
 }
 
+var ansiRe = regexp.MustCompile("\\x1b\\[[0-9;]*m")
+
+// lineWith returns the first line of s containing sub (without colour codes).
+func lineWith(s, sub string) string {
+	for _, l := range strings.Split(s, "\n") {
+		if strings.Contains(l, sub) {
+			return strings.TrimSpace(ansiRe.ReplaceAllString(l, ""))
+		}
+	}
+	return tail(s, 200)
+}
+
 func sameSet(a, b []string) bool {
 	if len(a) != len(b) {
 		return false
@@ -398,6 +410,23 @@ func (j *judge) peer(pi int, ps *c10gen.PeerSpec, pr c10rt.PeerReport) {
 			}
 			seen[t] = n
 		}
+		// Which name belongs to which method: the documentation fixes it for documented controllers;
+		// for the others, name mapping being a function of (prefix, Go identifier) fixes it whenever the
+		// returned set equals {mapper(p, method)} for the controller's prefix p (README: Aaa.XxZz -> /aaa/xx_zz).
+		for _, exp := range [][]string{o.reg.Expect, o.reg.Predicted} {
+			if len(o.reg.Tags) < 2 || len(exp) != len(o.reg.Tags) || !sameSet(exp, o.names) {
+				continue
+			}
+			for n, t := range hits {
+				for i, tg := range o.reg.Tags {
+					if tg == t && exp[i] != n {
+						j.v(ps.Class+":registration", o.reg.PClass, "wrong-handler", fmt.Sprintf("%s mapper: %s in %q returned %q; the name %q ran handler %s, whose own name is %q", j.mapper, o.reg.What, o.reg.Group, o.names, n, t, exp[i]),
+							map[string]interface{}{"registration": o.reg, "returned": o.names, "answers": hits, "names_by_handler": exp})
+					}
+				}
+			}
+			break
+		}
 	}
 }
 
@@ -443,7 +472,7 @@ func (j *judge) collision(cs *c10gen.CollisionSpec, cr c10rt.CollisionReport) {
 	loud := cr.Exit != 0 && strings.Contains(cr.Output, "conflict")
 	switch {
 	case loud && !sameNS:
-		j.v(scen, pclass, "call-push-namespace-shared", fmt.Sprintf("%s mapper: %s: a CALL and a PUSH registration were refused as conflicting: %s", j.mapper, cs.What, tail(cr.Output, 200)), w)
+		j.v(scen, pclass, "call-push-namespace-shared", fmt.Sprintf("%s mapper: %s: a CALL and a PUSH registration were refused as conflicting: %s", j.mapper, cs.What, lineWith(cr.Output, "conflict")), w)
 	case loud && cs.ExpectSurvive:
 		j.incon = append(j.incon, "control pair died with a conflict: "+cs.What)
 	case loud:
@@ -564,16 +593,12 @@ func runProgram(item, index int, harness, repo string) {
 	repFile := filepath.Join(dir, "report.json")
 	out, code, timedOut, err = runCmd(10*time.Minute, dir, goEnv(), filepath.Join(dir, "prog"), "-out", repFile)
 	var rep c10rt.Report
-	if err == nil && code == 0 && !timedOut {
-		b, e := os.ReadFile(repFile)
-		if e == nil {
-			e = json.Unmarshal(b, &rep)
-		}
-		if e != nil {
-			err = e
+	if b, e := os.ReadFile(repFile); e == nil {
+		if e = json.Unmarshal(b, &rep); e != nil {
+			rep = c10rt.Report{}
 		}
 	}
-	if err != nil || code != 0 || timedOut {
+	if err != nil || code != 0 || timedOut || !rep.Complete {
 		txt := string(out)
 		switch {
 		case timedOut:
@@ -582,11 +607,19 @@ func runProgram(item, index int, harness, repo string) {
 			saveProgram(p, "crash")
 			j.v("program", "", "child-crash", fmt.Sprintf("%s mapper: the generated program crashed: %s", p.Mapper, tail(txt, 600)), map[string]interface{}{"output": tail(txt, 4000)})
 		case code == 1 && strings.Contains(txt, "conflict"):
-			// registrations the generator had planned as clash-free (using the same mapper function) were refused
+			// Registrations planned as clash-free (with the same mapper function, in this process) were
+			// refused. A loud refusal is not a violation by itself: the program could not be run.
 			saveProgram(p, "unexpected_conflict")
-			j.v("program", "", "unexpected-conflict", fmt.Sprintf("%s mapper: a registration with names planned as distinct was refused: %s", p.Mapper, tail(txt, 300)), map[string]interface{}{"output": tail(txt, 2000)})
+			j.incon = append(j.incon, "a registration planned as clash-free was refused, the program could not run: "+tail(txt, 300))
 		default:
 			j.incon = append(j.incon, fmt.Sprintf("generated program failed: code %d err %v: %s", code, err, tail(txt, 400)))
+		}
+		// what the program reported before it died is still judged
+		j.direct(p, &rep)
+		for i, cs := range p.Collisions {
+			if i < len(rep.Collisions) {
+				j.collision(cs, rep.Collisions[i])
+			}
 		}
 		j.finish(id, desc, sig)
 		return
@@ -712,7 +745,6 @@ func runInproc(item, chunk int, mapper string, n int) {
 		}
 	}
 	for i, x := range ins {
-		j.evals++
 		o, ok := eval(x.p, x.n)
 		if !ok {
 			continue
@@ -741,7 +773,7 @@ func runInproc(item, chunk int, mapper string, n int) {
 		}(g)
 	}
 	wg.Wait()
-	j.evals += int64(4 * len(ins))
+	// the bulk sweep is reported separately so that the evaluation floor stays a floor on probes
 	core.Add("mapper_function_evaluations", int64(6*len(ins)))
 	if chunk == 0 {
 		core.Sample(map[string]interface{}{"mapper_function": mapper, "inputs": len(ins), "e.g.": fmt.Sprintf("(%q, %q) -> %q", ins[0].p, ins[0].n, outs[0])})
